@@ -348,3 +348,26 @@ def r_ctorfn(text):
                 path = "".join(t.text for t in inner)
                 edits.append((inner[0].start, inner[-1].end, "|verif_e| %s(verif_e)" % path))
     return apply_edits(text, edits), len(edits)
+
+
+def r_metrics(text):
+    """R-log (metrics): delete statements that start with `metrics::METRICS` / `crate::metrics::METRICS` (value unused)."""
+    toks = tokenize(text)
+    edits = []
+    i = 0
+    while i < len(toks) - 3:
+        start = None
+        if toks[i].text == "metrics" and toks[i + 1].text == "::" and toks[i + 2].text == "METRICS":
+            start = i
+        elif (toks[i].text == "crate" and toks[i + 1].text == "::" and toks[i + 2].text == "metrics"
+              and i + 4 < len(toks) and toks[i + 4].text == "METRICS"):
+            start = i
+        if start is not None and (start == 0 or toks[start - 1].text in (";", "{", "}")):
+            e = _stmt_end(toks, start)
+            if e is not None:
+                seg = text[toks[start].start:toks[e].end]
+                edits.append((toks[start].start, toks[e].end, "\n" * seg.count("\n")))
+                i = e + 1
+                continue
+        i += 1
+    return apply_edits(text, edits), len(edits)
